@@ -320,6 +320,73 @@ func runC26(w *World, r *Report) {
 		}
 	}
 
+	// ---- R-C26-5 what exists on disk is resolved before it is trusted
+	r.Rule("R-C26-5", "in util.resolveWithinSandbox, once a component of the candidate was found on disk (success edge of os.Lstat) every return hands back the sandbox root, except through the true edge of a withinRoot containment test", 1)
+
+	if up := w.pkg("internal/util"); up != nil {
+		key := "util.resolveWithinSandbox|existing components are resolved"
+
+		fn := w.ssaFunc(up, "resolveWithinSandbox")
+		if fn == nil || len(fn.Params) != 2 {
+			r.Anchor("R-C26-5", "util.resolveWithinSandbox(candidate, sandboxRoot)")
+		} else {
+			var starts []*ssa.BasicBlock
+
+			for _, b := range fn.Blocks {
+				ifi, ok := b.Instrs[len(b.Instrs)-1].(*ssa.If)
+				if !ok {
+					continue
+				}
+
+				for idx, branch := range []bool{true, false} {
+					for _, f := range edgeFacts(ifi.Cond, branch) {
+						if f.Kind != "nil" {
+							continue
+						}
+
+						if c, i := resultOf(f.V); c != nil && i == 1 && callID(c.Common()) == "os.Lstat" {
+							starts = append(starts, b.Succs[idx])
+						}
+					}
+				}
+			}
+
+			cuts := cutEdges(fn, func(f Fact) bool {
+				if f.Kind != "true" {
+					return false
+				}
+
+				c, ok := f.V.(*ssa.Call)
+
+				return ok && callID(c.Common()) == "internal/util.withinRoot"
+			})
+
+			bad := ""
+
+			for _, st := range starts {
+				for b := range reach(st, cuts, nil) {
+					ret, ok := b.Instrs[len(b.Instrs)-1].(*ssa.Return)
+					if !ok {
+						continue
+					}
+
+					if v := resolveLocal(retResult(ret, 0)); v != ssa.Value(fn.Params[1]) {
+						bad = w.pos(ret.Pos())
+					}
+				}
+			}
+
+			switch {
+			case len(starts) == 0 || len(cuts) == 0:
+				r.Violate("R-C26-5", key, w.pos(fn.Pos()), "the Lstat walk or the withinRoot tests of resolveWithinSandbox were not found")
+			case bad != "":
+				r.Violate("R-C26-5", key, bad, "after a component of the path was found on disk, the function can return a path that no containment test accepted (return at "+bad+"): a symbolic link it could not resolve, for example one whose target does not exist yet, is handed back as it is, and writing to it creates the target outside the sandbox")
+			default:
+				r.Discharge("R-C26-5", key, w.pos(fn.Pos()), "every return after the Lstat success edge is the sandbox root or sits behind withinRoot(...) == true")
+			}
+		}
+	}
+
 	// ---- R-C26-3 sibling helpers
 	for _, p := range pkgs {
 		for _, fn := range w.srcFuncs(p) {
